@@ -83,6 +83,79 @@ def run_driver(chk, drv, cases, tag, wd_ms=45000):
     return lines, statuses
 
 
+def judge(chk, work, good, bycase, stat, chunks):
+    """P-level verdicts: TLC folds the recorded events into OneCopyObs.tla, one fold per transport."""
+    out = {"accepted": 0, "rejected": [], "states": 0, "transitions": 0, "errors": []}
+    boxes = {}
+
+    def one(tr):
+        # the targeted schedules come first; a flood of rejections on one transport must not hide the other
+        mine = [s for s in good if s[0].get("tr") == tr]
+        mine.sort(key=lambda s: 0 if s[0].get("case", "").startswith(("dw-", "rel-", "lostcommit-")) else 1)
+        boxes[tr] = V.fold_traces(work, "OneCopyObs", "OneCopyObs.cfg", mine, timeout=2400, chunks=chunks, max_rounds=6)
+    ts = [threading.Thread(target=one, args=(tr,)) for tr in sorted({s[0].get("tr") for s in good})]
+    [t.start() for t in ts]
+    [t.join() for t in ts]
+    for r in boxes.values():
+        for k in out:
+            out[k] += r[k]
+    obs = out
+    chk.states += obs["states"]; chk.transitions += obs["transitions"]; chk.traces += obs["accepted"]
+    for e in obs["errors"]:
+        chk.inconclusive.append("OneCopyObs: " + e)
+    seen_classes = {}
+    for r in obs["rejected"]:
+        seg = r["seg"]
+        h = seg[0]
+        inv = "rejected"
+        for name in INVS:
+            if name in r["text"]:
+                inv = name
+        if r["kind"] == "stuck":
+            chk.inconclusive.append("OneCopyObs could not consume event %d of case %s" % (r["line_in_seg"], h.get("case")))
+            continue
+        cls = (inv, h.get("tr"), h.get("mode"))
+        seen_classes[cls] = seen_classes.get(cls, 0) + 1
+        if seen_classes[cls] > 1:
+            continue      # one replay per class (invariant, transport, kind of schedule); the count is in the evidence
+        c = bycase.get(h.get("case"), {})
+        st = stat.get(h.get("case"), {})
+        replay_case = dict(c)
+        if c.get("mode") == "free" and st.get("sched"):
+            replay_case = {"case": c["case"], "mode": "script", "tr": c["tr"], "n": c["n"], "writers": c["writers"],
+                           "steps": st["sched"], "solo": c.get("solo", 0), "solotries": c.get("solotries", 3), "seed": c["seed"]}
+            for a in st["sched"]:
+                if a and a[0] == "solo":
+                    replay_case["solo"] = a[1]
+        ev = seg[r["line_in_seg"] - 1] if 0 < r["line_in_seg"] <= len(seg) else {}
+        chk.violation("C11:%s:tr=%s:n=%s:%s" % (inv, h.get("tr"), h.get("n"), h.get("mode")),
+                      "real replicas violate %s over the %s transport in case %s at event %d %s" % (
+                          inv, h.get("tr"), h.get("case"), r["line_in_seg"], json.dumps(ev)[:300]),
+                      {"case": replay_case, "line_in_seg": r["line_in_seg"], "tlc": r["text"],
+                       "events": seg[max(0, r["line_in_seg"] - 40):r["line_in_seg"] + 2]})
+    chk.notes["rejected_cases_per_class"] = {"/".join(map(str, k)): v for k, v in seen_classes.items()}
+
+
+def replay_one(chk, specsrc, work):
+    rp = json.load(open(chk.replay))
+    case = rp["case"]["case"]
+    drv = V.build_driver("c11drv", chk.bindir)
+    lines, statuses = run_driver(chk, drv, [case], "replay")
+    segs = V.split_cases(lines)
+    if not segs:
+        raise V.Inconclusive("the driver recorded nothing")
+    for s in statuses:
+        if s.get("setup_error") or not s.get("ok"):
+            chk.inconclusive.append("case %s: %s" % (s["case"], s.get("setup_error") or s.get("hang")))
+    good = [s for s in segs if not any(ln.get("e") == "hang" for ln in s)]
+    judge(chk, work, good, {case["case"]: case}, {s["case"]: s for s in statuses}, 1)
+    chk.notes["replayed_case"] = case["case"]
+    chk.notes["schedule_drift"] = [ln.get("what") for s in good for ln in s if ln.get("e") == "drift"]
+    for s in good:
+        chk.sample({"case": s[0], "first_events": s[1:16], "events": len(s)})
+    return chk.finish(rule="replay of the schedule recorded in %s on real replicas, judged by OneCopyObs.tla" % os.path.basename(chk.replay))
+
+
 def start_mlevel(chk, specsrc, good):
     """TwoPCTrace.tla per (replica count, writers) group, in threads; returns (threads, set of conforming case names)"""
     groups = {}
@@ -122,6 +195,9 @@ def run(chk):
     quick = chk.quick()
     seed = chk.seed
     W = max(2, min(8, V.NCPU // 2))
+
+    if chk.replay:
+        return replay_one(chk, specsrc, work)
 
     # ------------------------------------------------------------------ 1. design level (TLC on the M-spec)
     bg = []
@@ -200,10 +276,7 @@ def run(chk):
 
     # ------------------------------------------------------------------ 2. cases for the real code
     cases = []
-    if chk.replay:
-        rp = json.load(open(chk.replay))
-        cases = [rp["case"]["case"]]
-    else:
+    if True:
         for tr in ("rpc", "local"):
             if len(dw_acts) > 5:
                 cases.append(dict(script_case("dw", 3, [1, 2], dw_acts, tr, seed), solo=2))
@@ -263,66 +336,8 @@ def run(chk):
 
     # ------------------------------------------------------------------ 4. P-level verdicts (TLC folds the recorded events)
     good = [s for s in segs if not any(ln.get("e") == "hang" for ln in s)]
-    obsbox = {}
-
-    def pfold():
-        # the two transports are folded separately (a flood of rejections on one must not hide the other);
-        # the targeted schedules come first
-        out = {"accepted": 0, "rejected": [], "states": 0, "transitions": 0, "errors": []}
-        boxes = {}
-
-        def one(tr):
-            mine = [s for s in good if s[0].get("tr") == tr]
-            mine.sort(key=lambda s: 0 if s[0].get("case", "").startswith(("dw-", "rel-", "lostcommit-")) else 1)
-            boxes[tr] = V.fold_traces(work, "OneCopyObs", "OneCopyObs.cfg", mine, timeout=2400,
-                                      chunks=2 if quick else 5, max_rounds=6)
-        ts = [threading.Thread(target=one, args=(tr,)) for tr in sorted({s[0].get("tr") for s in good})]
-        [t.start() for t in ts]
-        [t.join() for t in ts]
-        for r in boxes.values():
-            for k in out:
-                out[k] += r[k]
-        obsbox["r"] = out
-    pth = threading.Thread(target=pfold)
-    pth.start()
     mths = start_mlevel(chk, specsrc, good)
-    pth.join()
-    obs = obsbox["r"]
-    chk.states += obs["states"]; chk.transitions += obs["transitions"]; chk.traces += obs["accepted"]
-    for e in obs["errors"]:
-        chk.inconclusive.append("OneCopyObs: " + e)
-    seen_classes = {}
-    for r in obs["rejected"]:
-        seg = r["seg"]
-        h = seg[0]
-        inv = "rejected"
-        for name in INVS:
-            if name in r["text"]:
-                inv = name
-        if r["kind"] == "stuck":
-            chk.inconclusive.append("OneCopyObs could not consume event %d of case %s" % (r["line_in_seg"], h.get("case")))
-            continue
-        cls = (inv, h.get("tr"), h.get("mode"))
-        seen_classes[cls] = seen_classes.get(cls, 0) + 1
-        if seen_classes[cls] > 1:
-            continue      # one replay per class (invariant, transport, kind of schedule); the count is in the evidence
-        c = bycase.get(h.get("case"), {})
-        st = stat.get(h.get("case"), {})
-        replay_case = dict(c)
-        if c.get("mode") == "free" and st.get("sched"):
-            replay_case = {"case": c["case"], "mode": "script", "tr": c["tr"], "n": c["n"], "writers": c["writers"],
-                           "steps": st["sched"], "solo": c.get("solo", 0), "solotries": c.get("solotries", 3), "seed": c["seed"]}
-            for a in st["sched"]:
-                if a and a[0] == "solo":
-                    replay_case["solo"] = a[1]
-        ev = seg[r["line_in_seg"] - 1] if 0 < r["line_in_seg"] <= len(seg) else {}
-        chk.violation("C11:%s:tr=%s:n=%s:%s" % (inv, h.get("tr"), h.get("n"), h.get("mode")),
-                      "real replicas violate %s over the %s transport in case %s at event %d %s" % (
-                          inv, h.get("tr"), h.get("case"), r["line_in_seg"], json.dumps(ev)[:300]),
-                      {"case": replay_case, "line_in_seg": r["line_in_seg"], "tlc": r["text"],
-                       "events": seg[max(0, r["line_in_seg"] - 40):r["line_in_seg"] + 2]})
-
-    chk.notes["rejected_cases_per_class"] = {"/".join(map(str, k)): v for k, v in seen_classes.items()}
+    judge(chk, work, good, bycase, stat, 2 if quick else 5)
     # ------------------------------------------------------------------ 5. M-level conformance (drift only)
     [t.join() for t in mths[0]]
     conform = mths[1]
